@@ -8,7 +8,7 @@ use serde_json::json;
 
 use crate::{
     gen::baseline,
-    report::{guard, h64, hex, Acc, Site, Tier},
+    report::{guard, h64, hex, Site, Tier},
     spec, textgen, typed,
 };
 
